@@ -25,7 +25,8 @@ MANIFEST = dict(
 )
 REQUIRED = ["Xmp.PlayBuffer.C12_concat", "Xmp.PlayBuffer.C12_concat_unbounded", "Xmp.PlayBuffer.C12_call",
             "Xmp.PlayBuffer.C12_no_drop_dup", "Xmp.PlayBuffer.C12_end_zero_fill",
-            "Xmp.PlayBuffer.C12_end_after", "Xmp.PlayBuffer.C12_len", "Xmp.PlayBuffer.C12_reset"]
+            "Xmp.PlayBuffer.C12_end_after", "Xmp.PlayBuffer.C12_len", "Xmp.PlayBuffer.C12_reset",
+            "Xmp.PlayBuffer.C12_post_of_seqstream", "Xmp.PlayBuffer.C12_concat_seqstream"]
 
 
 def pick_modules(ck, n):
@@ -44,9 +45,12 @@ def parse_cases(text):
         if line.startswith("caseidx "):
             idx = int(line.split()[1])
         elif line.startswith("begin "):
-            cur = {"begin": line, "caseidx": idx, "script": [line], "expect": [], "oracle": [], "ops": []}
+            cur = {"begin": line, "caseidx": idx, "script": [line], "expect": [], "oracle": [], "ops": [], "lcs": []}
         elif cur is None:
             continue
+        elif line.startswith("frame "):
+            cur["script"].append(line)
+            cur["lcs"].append(int(line.split(" ", 2)[1]))
         elif line.startswith("expect "):
             cur["expect"].append(line[7:])
         elif line.startswith("oracle_"):
@@ -128,6 +132,11 @@ def run(ck):
             key = vlib.hash_str(c["begin"] + repr(c["ops"]))
             ck.count(key, nontrivial=crossing > 0)
             ck.sample({"case": c["begin"], "ops": c["ops"][:12], "first_expect": [e[:60] for e in c["expect"][:3]]}, limit=4)
+            # monitored hypothesis of C12_concat_seqstream: loop counts of the reference stream never decrease
+            if any(a > b for a, b in zip(c["lcs"], c["lcs"][1:])):
+                ck.violation("seqstream:loop-count-decreases", dict(replay_info(sh, c), loop_counts=c["lcs"][:200]),
+                             "the loop counter of consecutive xmp_play_frame calls decreased without a position-control call")
+            stats["frames_in_reference_streams"] = stats.get("frames_in_reference_streams", 0) + len(c["lcs"])
             fails = [o for o in c["oracle"] if o.startswith("oracle_fail")]
             if fails:
                 ck.violation("oracle:" + c["begin"].split()[2].split("/")[-1],
